@@ -93,8 +93,9 @@ def norm_record(j):
 
 
 class Block(object):
-    def __init__(self, bpi):
+    def __init__(self, bpi, bp=None):
         self.bpi = bpi
+        self.bp = dict(bp) if bp is not None else None     # parameters the block was armed with (its own copy)
         self.qr, self.mm = [], []
         self.aec = {}          # key -> count (insertion ordered)
         self.stats = None
@@ -113,15 +114,15 @@ class ExporterModel(object):
     def __init__(self, preamble, first_output='o0'):
         self.bps = [dict(b) for b in preamble['bps']]
         self.active = 0
-        self.block = Block(0)
+        self.block = Block(0, self.bps[0])
         self.blocks_written = 0
-        self.outputs = [{'id': first_output, 'blocks': [], 'nbps': len(self.bps), 'closed_by': None}]
+        self.outputs = [{'id': first_output, 'blocks': [], 'nbps': len(self.bps), 'closed_by': None, 'bps_header': None}]
         self.flushes_by_size = 0
         self.flushes_explicit = 0
 
     # --- helpers
     def _bp(self):
-        return self.bps[self.block.bpi]
+        return self.block.bp
 
     def _full(self):
         m = self._bp()['max']
@@ -132,6 +133,7 @@ class ExporterModel(object):
         out = self.outputs[-1]
         if self.blocks_written == 0:
             out['nbps'] = len(self.bps)      # the header is written with the first block
+            out['bps_header'] = [dict(b) for b in self.bps]
         out['blocks'].append(blk)
         self.blocks_written += 1
 
@@ -140,7 +142,7 @@ class ExporterModel(object):
         if self.block.items() > 0:
             self._emit(self.block)
             wrote = True
-        self.block = Block(self.active)
+        self.block = Block(self.active, self.bps[self.active])
         return wrote
 
     def counters(self):
@@ -205,6 +207,12 @@ class ExporterModel(object):
             return {'ret': len(self.bps) - 1}
         if o == 'counters':
             return self.counters()
+        if o == 'edithints':
+            # in-place edit through get_active_block_parameters_ref(): affects blocks armed from now on
+            for k in ('qrh', 'sigh', 'rrh', 'oth'):
+                if k in op:
+                    self.bps[self.active][k] = op[k]
+            return {}
         if o == 'dblock':
             blk = self.direct_block(op)
             wrote = False
@@ -218,14 +226,14 @@ class ExporterModel(object):
                 wrote = self._write_block()
             closing = self.blocks_written > 0
             self.outputs[-1]['closed_by'] = 'rotate'
-            self.outputs.append({'id': op['id'], 'blocks': [], 'nbps': len(self.bps), 'closed_by': None})
+            self.outputs.append({'id': op['id'], 'blocks': [], 'nbps': len(self.bps), 'closed_by': None, 'bps_header': None})
             self.blocks_written = 0
             return {'wrote': wrote or closing, 'break': closing}
         raise ValueError(o)
 
     def direct_block(self, op):
         bp = self.bps[op['bp']]
-        b = Block(op['bp'])
+        b = Block(op['bp'], bp)
         for it in op['items']:
             k, r, st = it['k'], it['r'], it.get('st')
             if k == 'qr':
